@@ -140,6 +140,14 @@ def t_destroy(ev, outcome, exc, path):
     dels = [e for e in ev if e[0] == 'db.delete']
     if len(dels) != 1 or dels[0][1] != ('ManagedObject',):
         return "Destroy succeeded without deleting exactly the base row"
+    # the row is addressed by its identifier alone: any further condition (owner, state, ...) can make
+    # the statement delete nothing while success is still reported
+    conds = dels[0][3] if len(dels[0]) > 3 else []
+    keyed = [c for c in conds if getattr(c, 'fields', {}).get('op') == 'Eq' and any(
+        getattr(c.fields.get(side), 'key', None) == 'unique_identifier' for side in ('left', 'right'))]
+    if len(conds) != 1 or len(keyed) != 1:
+        return ("the DELETE of a successful Destroy is not filtered by the unique identifier alone (%d conditions): "
+                "it may match no row" % len(conds))
     for e in ev:
         if e[0] == 'db.load':
             mo = e[3]
